@@ -61,4 +61,7 @@ def validate(ctx, module, cfg, tracefile_name, rows, tag, max_rounds=12, timeout
         if r.violated:
             raise core.Infra("%s: invariant %s violated:\n%s" % (module, r.violated, r.out[-3000:]))
         raise core.Infra("%s: trace validation gave no verdict:\n%s" % (module, r.out[-3000:]))
+    if scen:
+        # rejections (of whatever property) used up every round: what is left was not validated in this run
+        ctx.notes["scenarios_not_validated_after_%d_rejections" % max_rounds] = len(scen)
     return accepted, rejections
